@@ -1024,6 +1024,7 @@ def check_c18(prog, rep, tier, cfg):
     c18e(prog, rep)
     c18f(prog, rep)
     c18j(prog, rep)
+    c18k(prog, rep)
     # C18.g — "the exit status is non-zero if and only if at least one file failed": every Err reaches the handler, the handler sets a
     # flag (not a count that can wrap), main selects between two constant exit codes — shared with C16.e
     from engine import AliasReport
@@ -1098,6 +1099,52 @@ def _retain_drops_only_same_file(prog, b, c):
         if not key_is_canonical(cb, t["args"][1]):
             return False
     return True
+
+
+MAIN_THREAD_STACK = 8 * 1024 * 1024      # what a main thread gets on the usual platforms (Linux / macOS default; Windows: 1 MiB)
+
+
+def c18k(prog, rep):
+    """C18.k — "every file gets exactly the result it gets when formatted alone": a single file is formatted on the calling thread, a
+    batch on the threads of rayon's pool, and the depth the recursive parser / wrapper can reach is bounded by the stack of the
+    thread it runs on (known findings C04.d).  Every call that enters the parallel batch is dominated, in the orchestrator's entry
+    point, by the set-up of the global pool with an explicit stack size of at least a main thread's: otherwise a nested file that
+    formats alone overflows the 2 MiB default stack of a worker — and aborts the run for every file — as soon as a second file is
+    named.  Decided: the structural part (the pool is configured before the batch, with a constant >= 8 MiB); not the platform's
+    actual main-thread stack."""
+    R = "C18.k"
+    run = prog.body("pasfmt_orchestrator::formatting_orchestrator::FormattingOrchestrator::run")
+    if not rep.check(run is not None, R, "anchor:FormattingOrchestrator::run", "FormattingOrchestrator::run not found"):
+        return
+    # which FileFormatter entry points reach a parallel iteration
+    par = set()
+    for b in prog.bodies.values():
+        if b.crate.startswith("pasfmt") and any((c.callee or "").startswith("rayon::") or norm(c.t.get("resolved") or "").startswith("rayon::") for c in b.calls()):
+            par.add(b.npath.split("::{closure")[0])
+    changed = True
+    while changed:
+        changed = False
+        for b in prog.bodies.values():
+            root = b.npath.split("::{closure")[0]
+            if root in par or not b.crate.startswith("pasfmt"):
+                continue
+            if any(t in par for c in b.calls() for t in prog.callees_of_site(c)):
+                par.add(root)
+                changed = True
+    batch_calls = [c for c in run.calls() if any(t in par for t in prog.callees_of_site(c))]
+    if not rep.check(bool(batch_calls), R, "anchor:batch-calls", "FormattingOrchestrator::run no longer calls a function that reaches a parallel iteration"):
+        return
+    setups = []
+    for c in run.calls():
+        if (c.callee or "").endswith("ThreadPoolBuilder::build_global"):
+            m = re.search(r"stack_size\(.*?,(\d+)\)", canon(run, c.args[0]))
+            if m and int(m.group(1)) >= MAIN_THREAD_STACK:
+                setups.append(c)
+    bad = [c for c in batch_calls if not any(run.dominates(s_.bb, c.bb) for s_ in setups)]
+    rep.check(not bad, R, "pool-stack-set-before-the-batch",
+              "the parallel batch is entered (%s) without the global pool having been set up with a stack of at least %d bytes: worker threads get the 2 MiB default, so a nested file that "
+              "formats on its own (on the main thread) overflows the stack in a batch and aborts the run for all files" % (sorted({(c.callee or "").split("::")[-1] for c in bad}), MAIN_THREAD_STACK),
+              where=bad[0].where() if bad else None, instance={"batch_entry_calls": len(batch_calls), "pool_setups_with_stack>=8MiB": len(setups)})
 
 
 FILE_OPENERS = ("std::fs::OpenOptions::open", "std::fs::File::open", "std::fs::File::create", "std::fs::File::create_new", "std::fs::File::open_buffered")
